@@ -253,9 +253,12 @@ Section C03.
     == (qlen S - (qsum (map g S) - qsum (map a S)) / ua) / (2 - v / ua).
   Proof.
     intros Hd. assert (Hu : ~ ua == 0) by lra.
+    assert (Hd2 : ~ 2 * ua - v == 0).
+    { intro E. apply Hd. assert (E2 : 2 - v / ua == (2 * ua - v) / ua) by (field; exact Hu).
+      rewrite E2, E. unfold Qdiv. ring. }
     induction S as [|p S IH].
-    - simpl. rewrite qlen_nil. field. split; assumption.
-    - simpl map. rewrite !qsum_cons, qlen_cons, IH. unfold Bq. field. split; assumption.
+    - simpl. rewrite qlen_nil. field. repeat split; assumption.
+    - simpl map. rewrite !qsum_cons, qlen_cons, IH. unfold Bq. field. repeat split; assumption.
   Qed.
 
   Lemma denom_pos v : v < 2 * ua -> 0 < 2 - v / ua.
@@ -324,7 +327,7 @@ Section C03.
   Proof.
     intros cvrs scope Hne Hph Hr Hm.
     assert (HL : filter (style_filter use_style cid) cvrs = map snd scope).
-    { unfold cvrs, scope. apply filter_map_comm. }
+    { exact (filter_map_comm (style_filter use_style cid) snd pairs). }
     assert (HLne : map snd scope <> []) by (destruct scope; [congruence|discriminate]).
     set (v := 2 * (qsum (map A (map snd scope)) / qlen (map A (map snd scope))) - 1).
     set (bs := map (fun p => Bq v (cvr_side cvrs (snd p) - abar A cid use_style (fst p))) scope).
@@ -362,7 +365,7 @@ Section C03.
   Proof.
     intros cvrs scope Hne Hph Hr.
     assert (HL : filter (style_filter use_style cid) cvrs = map snd scope).
-    { unfold cvrs, scope. apply filter_map_comm. }
+    { exact (filter_map_comm (style_filter use_style cid) snd pairs). }
     assert (HLne : map snd scope <> []) by (destruct scope; [congruence|discriminate]).
     set (v := 2 * (qsum (map A (map snd scope)) / qlen (map A (map snd scope))) - 1).
     set (bs := map (fun p => Bq v (own_side (snd p) - abar A cid use_style (fst p))) scope).
@@ -382,3 +385,392 @@ Section C03.
       split; [exact Hid|]. apply (iff_core (2 * ua - v)); [lra|exact Hid].
   Qed.
 End C03.
+
+(* ------------------------------------------------------------------ C03: every pooled card lists every contest of its pool *)
+Lemma dedup_In k l : In k (dedup l) <-> In k l.
+Proof. unfold dedup. apply nodup_In. Qed.
+Lemma union_l k a b : In k a -> In k (union a b).
+Proof. intros H. unfold union. apply in_or_app. now left. Qed.
+Lemma union_r k a b : In k b -> In k (union a b).
+Proof.
+  intros H. unfold union. apply in_or_app. destruct (memz k a) eqn:E.
+  - left. now apply memz_In.
+  - right. apply (proj2 (dedup_In _ _)). apply filter_In. split; [exact H|]. now rewrite E.
+Qed.
+Lemma union_inv k a b : In k (union a b) -> In k a \/ In k b.
+Proof.
+  unfold union. intros H. apply in_app_or in H. destruct H as [H|H]; [now left|].
+  right. apply (proj1 (dedup_In _ _)) in H. apply filter_In in H. tauto.
+Qed.
+Lemma union_new k a b : In k (union a b) -> ~ In k a -> In k b.
+Proof. intros H N. destruct (union_inv k a b H); tauto. Qed.
+
+Lemma upd_mono p q cs acc s k :
+  lookup p acc = Some s -> In k s -> exists s', lookup p (upd q cs acc) = Some s' /\ In k s'.
+Proof.
+  induction acc as [|[k' s0] r IH]; simpl; [discriminate|]. intros H Hk.
+  destruct (p =? k')%Z eqn:E1.
+  - injection H as <-. destruct (q =? k')%Z eqn:E2; simpl; rewrite E1.
+    + exists (union s0 cs). split; [reflexivity|now apply union_l].
+    + exists s0. split; [reflexivity|exact Hk].
+  - destruct (q =? k')%Z eqn:E2; simpl; rewrite E1.
+    + exists s. split; assumption.
+    + now apply IH.
+Qed.
+Lemma upd_adds q cs acc k : In k cs -> exists s', lookup q (upd q cs acc) = Some s' /\ In k s'.
+Proof.
+  intros Hk. induction acc as [|[k' s0] r IH]; simpl.
+  - rewrite Z.eqb_refl. exists (union [] cs). split; [reflexivity|now apply union_r].
+  - destruct (q =? k')%Z eqn:E; simpl; rewrite E.
+    + exists (union s0 cs). split; [reflexivity|now apply union_r].
+    + exact IH.
+Qed.
+Lemma upd_origin p q cs acc s k :
+  lookup p (upd q cs acc) = Some s -> In k s ->
+  (exists s0, lookup p acc = Some s0 /\ In k s0) \/ (p = q /\ In k cs).
+Proof.
+  induction acc as [|[k' s0] r IH]; simpl.
+  - destruct (p =? q)%Z eqn:E; [|discriminate]. intros H Hk. injection H as <-. right.
+    apply Z.eqb_eq in E. split; [exact E|]. apply (union_new k [] cs Hk). intros [].
+  - destruct (q =? k')%Z eqn:E2; simpl; destruct (p =? k')%Z eqn:E1; intros H Hk.
+    + injection H as <-. destruct (union_inv _ _ _ Hk) as [Hl|Hr].
+      * left. exists s0. split; [reflexivity|exact Hl].
+      * right. apply Z.eqb_eq in E1, E2. split; [congruence|exact Hr].
+    + left. exists s. split; assumption.
+    + left. exists s. split; assumption.
+    + now apply IH.
+Qed.
+
+Lemma pcf_mono cvrs : forall acc p s k,
+  lookup p acc = Some s -> In k s -> exists s', lookup p (pool_contests_from acc cvrs) = Some s' /\ In k s'.
+Proof.
+  induction cvrs as [|c r IH]; simpl; intros acc p s k H Hk; [eauto|].
+  destruct (c_pool c).
+  - destruct (upd_mono p (c_tp c) (c_contests c) acc s k H Hk) as [s1 [H1 H2]]. now apply (IH _ p s1 k).
+  - now apply (IH _ p s k).
+Qed.
+Lemma pcf_adds cvrs : forall acc d k,
+  In d cvrs -> c_pool d = true -> In k (c_contests d) ->
+  exists s, lookup (c_tp d) (pool_contests_from acc cvrs) = Some s /\ In k s.
+Proof.
+  induction cvrs as [|c r IH]; simpl; intros acc d k Hd Hp Hk; [contradiction|].
+  destruct Hd as [->|Hd].
+  - rewrite Hp. destruct (upd_adds (c_tp d) (c_contests d) acc k Hk) as [s1 [H1 H2]].
+    now apply (pcf_mono r _ (c_tp d) s1 k).
+  - now apply IH.
+Qed.
+Lemma pcf_origin cvrs : forall acc p s k,
+  lookup p (pool_contests_from acc cvrs) = Some s -> In k s ->
+  (exists s0, lookup p acc = Some s0 /\ In k s0) \/
+  (exists d, In d cvrs /\ c_pool d = true /\ c_tp d = p /\ In k (c_contests d)).
+Proof.
+  induction cvrs as [|c r IH]; simpl; intros acc p s k H Hk.
+  - left. eauto.
+  - destruct (IH _ p s k H Hk) as [[s0 [H0 Hk0]]|[d [Hd [Hp [Ht Hc]]]]].
+    + destruct (c_pool c) eqn:Ep.
+      * destruct (upd_origin p (c_tp c) (c_contests c) acc s0 k H0 Hk0) as [Hl|[E Hc]].
+        -- now left.
+        -- right. exists c. repeat split; auto.
+      * left. eauto.
+    + right. exists d. repeat split; auto.
+Qed.
+
+Lemma Forall2_map_r {T U} (R : T -> U -> Prop) (f : T -> U) l :
+  (forall x, In x l -> R x (f x)) -> Forall2 R l (map f l).
+Proof.
+  induction l as [|x l IH]; intros H; simpl; constructor.
+  - apply H. now left.
+  - apply IH. intros y Hy. apply H. now right.
+Qed.
+
+Lemma Forall2_map_l {T U V} (f : T -> U) (R : U -> V -> Prop) l : forall d,
+  Forall2 R (map f l) d -> Forall2 (fun x y => R (f x) y) l d.
+Proof.
+  induction l as [|x l IH]; intros d H; simpl in H; inversion H; subst; constructor; auto.
+Qed.
+
+Definition same_but_contests (c c' : card) : Prop :=
+  c_phantom c' = c_phantom c /\ c_pool c' = c_pool c /\ c_tp c' = c_tp c /\ c_snum c' = c_snum c /\ c_votes c' = c_votes c.
+
+Lemma C03_pool_contests_lemma (cvrs : list card) :
+  let r := add_pool_contests cvrs (pool_contests cvrs) in
+  (forall c' d k, In c' (fst r) -> c_pool c' = true ->
+                  In d cvrs -> c_pool d = true -> c_tp d = c_tp c' -> has_contest k d = true ->
+                  has_contest k c' = true)
+  /\ Forall2 (fun c c' =>
+                same_but_contests c c' /\
+                exists extra, c_contests c' = c_contests c ++ extra /\
+                              (c_pool c = false -> extra = []) /\
+                              forall k, In k extra ->
+                                        ~ In k (c_contests c) /\
+                                        exists d, In d cvrs /\ c_pool d = true /\ c_tp d = c_tp c /\ has_contest k d = true)
+             cvrs (fst r).
+Proof.
+  intros r.
+  assert (Er : fst r = map (fun c => fst (apc_one (pool_contests cvrs) c)) cvrs).
+  { unfold r, add_pool_contests. simpl. now rewrite map_map. }
+  assert (Hone : forall c, In c cvrs ->
+     let c' := fst (apc_one (pool_contests cvrs) c) in
+     same_but_contests c c' /\
+     (exists extra, c_contests c' = c_contests c ++ extra /\ (c_pool c = false -> extra = []) /\
+        forall k, In k extra -> ~ In k (c_contests c) /\
+                  exists d, In d cvrs /\ c_pool d = true /\ c_tp d = c_tp c /\ has_contest k d = true) /\
+     (c_pool c = true -> forall d k, In d cvrs -> c_pool d = true -> c_tp d = c_tp c -> has_contest k d = true ->
+                         has_contest k c' = true)).
+  { intros c Hc. unfold apc_one. destruct (c_pool c) eqn:Ep.
+    - destruct (lookup (c_tp c) (pool_contests cvrs)) as [s|] eqn:El.
+      + simpl. split; [repeat split|split].
+        * exists (dedup (filter (fun k => negb (has_contest k c)) s)). split; [reflexivity|]. split; [discriminate|].
+          intros k Hk. apply (proj1 (dedup_In _ _)) in Hk. apply filter_In in Hk. destruct Hk as [Hks Hn].
+          split.
+          -- intro Hin. apply has_contest_In in Hin. rewrite Hin in Hn. discriminate.
+          -- destruct (pcf_origin cvrs [] (c_tp c) s k El Hks) as [[s0 [H0 _]]|[d [Hd [Hp [Ht Hk']]]]]; [discriminate|].
+             exists d. repeat split; auto. now apply has_contest_In.
+        * intros _ d k Hd Hp Ht Hk. apply has_contest_In in Hk. apply has_contest_In. simpl.
+          destruct (pcf_adds cvrs [] d k Hd Hp Hk) as [s1 [H1 H2]]. unfold pool_contests in El.
+          rewrite Ht, El in H1. injection H1 as <-.
+          apply in_or_app. destruct (has_contest k c) eqn:Eh.
+          -- left. now apply has_contest_In.
+          -- right. apply (proj2 (dedup_In _ _)). apply filter_In. split; [exact H2|]. now rewrite Eh.
+      + (* impossible: the card itself makes its label a key; still, nothing changes *)
+        simpl. split; [repeat split|split].
+        * exists []. split; [now rewrite app_nil_r|]. split; [reflexivity|]. intros k [].
+        * intros _ d k Hd Hp Ht Hk. apply has_contest_In in Hk.
+          destruct (pcf_adds cvrs [] d k Hd Hp Hk) as [s1 [H1 _]]. unfold pool_contests in El.
+          rewrite Ht, El in H1. discriminate.
+    - simpl. split; [repeat split|split].
+      + exists []. split; [now rewrite app_nil_r|]. split; [reflexivity|]. intros k [].
+      + discriminate. }
+  split.
+  - intros c' d k Hc' Hp' Hd Hp Ht Hk. rewrite Er in Hc'. apply in_map_iff in Hc'. destruct Hc' as [c [<- Hc]].
+    destruct (Hone c Hc) as [[_ [Hpool [Htp _]]] [_ Hall]].
+    apply (Hall (eq_trans (eq_sym Hpool) Hp') d k Hd Hp); [|exact Hk]. now rewrite Ht, Htp.
+  - rewrite Er. apply Forall2_map_r. intros c Hc. destruct (Hone c Hc) as [H1 [H2 _]]. split; assumption.
+Qed.
+
+(* ------------------------------------------------------------------ C06: data within the bound *)
+(* every pool mean stored with the assorter is a number in [0, ua] *)
+Definition means_ok (ua : Q) (means : option (list (Z * Xq))) : bool :=
+  match means with
+  | None => true
+  | Some ms => forallb (fun kv => match snd kv with Fin q => Qle_bool 0 q && Qle_bool q ua | _ => false end) ms
+  end.
+Definition in_range (u : Q) (x : Xq) : Prop := exists q, x = Fin q /\ 0 <= q <= u.
+
+Lemma lookup_In {V} k (l : list (Z * V)) v : lookup k l = Some v -> In (k, v) l.
+Proof.
+  induction l as [|[k' v'] r IH]; simpl; [discriminate|].
+  destruct (k =? k')%Z eqn:E; intros H.
+  - injection H as <-. apply Z.eqb_eq in E. subst. now left.
+  - right. now apply IH.
+Qed.
+
+Lemma collect_ok {T} (l : list (res T)) d : collect l = Ok d -> Forall2 (fun r x => r = Ok x) l d.
+Proof.
+  revert d. induction l as [|r l IH]; simpl; intros d H.
+  - injection H as <-. constructor.
+  - destruct r as [x|e]; [|discriminate]. destruct (collect l) as [xs|e]; [|discriminate].
+    injection H as <-. constructor; [reflexivity|now apply IH].
+Qed.
+Lemma collect_raise {T} (l : list (res T)) e : collect l = Raise e -> In (Raise e) l.
+Proof.
+  induction l as [|r l IH]; simpl; [discriminate|].
+  destruct r as [x|e']; intros H.
+  - destruct (collect l) as [xs|e'']; [discriminate|]. injection H as ->. right. now apply IH.
+  - injection H as ->. now left.
+Qed.
+
+Section C06.
+  Variable A : card -> Q.
+  Variables (cid : Z) (ua : Q).
+  Hypothesis ua_half : (1 # 2) <= ua.
+
+  Lemma overstatement_range means mvr cvr use_style o :
+    0 <= A mvr <= ua -> 0 <= A cvr <= ua -> means_ok ua means = true ->
+    overstatement A cid means mvr cvr use_style = Ok o ->
+    exists q, o = Fin q /\ - ua <= q <= ua.
+  Proof.
+    intros Hm Hc Hok. unfold overstatement.
+    destruct (use_style && negb (has_contest cid cvr)); [discriminate|].
+    set (ma := if c_phantom mvr || (use_style && negb (has_contest cid mvr)) then 0 else A mvr).
+    assert (Hma : 0 <= ma <= ua) by (unfold ma; destruct (c_phantom mvr || _); lra).
+    destruct (c_pool cvr).
+    - destruct means as [ms|].
+      + destruct (lookup (c_tp cvr) ms) as [m|] eqn:El; [|discriminate]. intros H. injection H as <-.
+        apply lookup_In in El. simpl in Hok. rewrite forallb_forall in Hok. specialize (Hok _ El). simpl in Hok.
+        destruct m as [q| | |]; try discriminate. apply andb_true_iff in Hok. destruct Hok as [H1 H2].
+        apply Qle_bool_iff in H1, H2. exists (q - ma). split; [reflexivity|lra].
+      + intros H. injection H as <-. eexists. split; [reflexivity|].
+        destruct (c_phantom cvr); unfold b2q.
+        * assert (E : 1 / 2 + (1 - 1) * A cvr - ma == (1 # 2) - ma) by field. rewrite E. lra.
+        * assert (E : 0 / 2 + (1 - 0) * A cvr - ma == A cvr - ma) by field. rewrite E. lra.
+    - intros H. injection H as <-. eexists. split; [reflexivity|].
+      destruct (c_phantom cvr); unfold b2q.
+      * assert (E : 1 / 2 + (1 - 1) * A cvr - ma == (1 # 2) - ma) by field. rewrite E. lra.
+      * assert (E : 0 / 2 + (1 - 0) * A cvr - ma == A cvr - ma) by field. rewrite E. lra.
+  Qed.
+
+  Lemma comparison_u_fin v : v < 2 * ua -> comparison_u (Fin v) ua = Fin (2 / (2 - v / ua)).
+  Proof.
+    intros Hv. assert (Hup : 0 < ua) by lra. pose proof (denom_pos ua Hup v Hv) as Hd.
+    unfold comparison_u. rewrite (xdiv_fin v ua) by lra.
+    change (xsub (Fin 2) (Fin (v / ua))) with (Fin (2 - v / ua)). rewrite xdiv_fin by lra. reflexivity.
+  Qed.
+
+  Lemma overstatement_assorter_range means v mvr cvr use_style x :
+    v < 2 * ua -> 0 <= A mvr <= ua -> 0 <= A cvr <= ua -> means_ok ua means = true ->
+    overstatement_assorter A cid means (Fin v) ua mvr cvr use_style = Ok x ->
+    in_range (2 / (2 - v / ua)) x.
+  Proof.
+    intros Hv Hm Hc Hok. assert (Hup : 0 < ua) by lra. pose proof (denom_pos ua Hup v Hv) as Hd.
+    unfold overstatement_assorter.
+    destruct (overstatement A cid means mvr cvr use_style) as [o|e] eqn:Eo; [|discriminate].
+    destruct (overstatement_range means mvr cvr use_style o Hm Hc Hok Eo) as [q [-> [Hq1 Hq2]]].
+    rewrite (xdiv_fin q ua) by lra. rewrite (xdiv_fin v ua) by lra.
+    change (xsub (Fin 1) (Fin (q / ua))) with (Fin (1 - q / ua)).
+    change (xsub (Fin 2) (Fin (v / ua))) with (Fin (2 - v / ua)).
+    rewrite xdiv_fin by lra. intros H. injection H as <-. eexists. split; [reflexivity|].
+    assert (H1 : q / ua <= 1) by (apply Qle_shift_div_r; lra).
+    assert (H2 : -1 <= q / ua) by (apply Qle_shift_div_l; lra).
+    set (r := q / ua) in *. set (D := 2 - v / ua) in *. split.
+    - apply Qle_shift_div_l; [exact Hd|lra].
+    - apply Qle_shift_div_r; [exact Hd|]. assert (E : 2 / D * D == 2) by (field; lra). rewrite E. lra.
+  Qed.
+End C06.
+
+Lemma range_ok_app A ua l m : range_ok A ua (l ++ m) = true -> range_ok A ua l = true /\ range_ok A ua m = true.
+Proof. unfold range_ok. rewrite forallb_app. apply andb_true_iff. Qed.
+
+(* comparison / ONEAudit: every datum is in [0, 2/(2 - v/u_a)] and that bound is the u returned *)
+Lemma C06_comparison_lemma (a : asn) (mvrs cvrs : list card) (use_all : bool) (d : list Xq) (u : Xq) (v : Q) :
+  is_comparison (a_type a) = true ->
+  a_margin a = Fin v -> (1 # 2) <= a_ua a -> v < 2 * a_ua a ->
+  range_ok (a_A a) (a_ua a) (mvrs ++ cvrs) = true ->
+  means_ok (a_ua a) (a_means a) = true ->
+  mvrs_to_data a mvrs cvrs use_all = Ok (d, u) ->
+  u = Fin (2 / (2 - v / a_ua a)) /\ Forall (in_range (2 / (2 - v / a_ua a))) d.
+Proof.
+  intros Hc Hmg Hua Hv Hr Hok. unfold mvrs_to_data. rewrite Hc, Hmg.
+  destruct (collect _) as [d'|e] eqn:Ecol; [|discriminate]. intros H. injection H as <- <-.
+  split; [now apply comparison_u_fin|].
+  apply collect_ok in Ecol. apply range_ok_app in Hr. destruct Hr as [Hrm Hrc].
+  remember (filter (keep a use_all) (combine mvrs cvrs)) as ps eqn:Eps.
+  assert (Hps : forall p, In p ps -> In (fst p) mvrs /\ In (snd p) cvrs).
+  { intros [m c] Hp. rewrite Eps in Hp. apply filter_In in Hp. destruct Hp as [Hp _].
+    split; [eapply in_combine_l|eapply in_combine_r]; exact Hp. }
+  clear Eps. revert d' Ecol. induction ps as [|p ps IH]; intros d' Ecol; simpl in Ecol; inversion Ecol; subst.
+  - constructor.
+  - constructor.
+    + destruct (Hps p (or_introl eq_refl)) as [Hm' Hc'].
+      eapply (overstatement_assorter_range (a_A a) (a_cid a) (a_ua a) Hua); [exact Hv| | |exact Hok|eassumption].
+      * exact (range_ok_In (a_A a) (a_ua a) mvrs _ Hrm Hm').
+      * exact (range_ok_In (a_A a) (a_ua a) cvrs _ Hrc Hc').
+    + apply IH; [|assumption]. intros q Hq. apply Hps. now right.
+Qed.
+
+(* polling: the data are the assorter values of the manual records, the bound is the assorter's own *)
+Lemma C06_polling_lemma (a : asn) (mvrs cvrs : list card) (use_all : bool) :
+  a_type a = Polling ->
+  mvrs_to_data a mvrs cvrs use_all = Ok (map (fun m => Fin (a_A a m)) mvrs, Fin (a_ua a)) /\
+  (range_ok (a_A a) (a_ua a) mvrs = true -> Forall (in_range (a_ua a)) (map (fun m => Fin (a_A a m)) mvrs)).
+Proof.
+  intros Ht. unfold mvrs_to_data. rewrite Ht. simpl. split; [reflexivity|].
+  intros Hr. apply Forall_forall. intros x Hx. apply in_map_iff in Hx. destruct Hx as [m [<- Hm]].
+  exists (a_A a m). split; [reflexivity|]. exact (range_ok_In (a_A a) (a_ua a) mvrs m Hr Hm).
+Qed.
+
+(* the style / threshold filter *)
+Lemma keep_no_evalue (a : asn) use_all p :
+  keep a use_all p = true ->
+  overstatement_assorter (a_A a) (a_cid a) (a_means a) (a_margin a) (a_ua a) (fst p) (snd p) (a_style a) <> Raise EValue.
+Proof.
+  unfold keep, overstatement_assorter, overstatement. intros Hk.
+  destruct (a_style a); simpl in *.
+  - apply andb_true_iff in Hk. destruct Hk as [Hk _]. rewrite Hk. simpl.
+    destruct (c_pool (snd p)); [destruct (a_means a) as [ms|]; [destruct (lookup _ ms)|]|]; discriminate.
+  - destruct (c_pool (snd p)); [destruct (a_means a) as [ms|]; [destruct (lookup _ ms)|]|]; discriminate.
+Qed.
+
+Lemma C06_filter_lemma (a : asn) (mvrs cvrs : list card) (use_all : bool) :
+  is_comparison (a_type a) = true ->
+  let contributing :=
+    filter (fun p => negb (a_style a) ||
+                     (has_contest (a_cid a) (snd p) && (use_all || Qle_bool (c_snum (snd p)) (a_thr a))))
+           (combine mvrs cvrs) in
+  mvrs_to_data a mvrs cvrs use_all <> Raise EValue /\
+  forall d u, mvrs_to_data a mvrs cvrs use_all = Ok (d, u) ->
+    Forall2 (fun p x => overstatement_assorter (a_A a) (a_cid a) (a_means a) (a_margin a) (a_ua a)
+                                               (fst p) (snd p) (a_style a) = Ok x) contributing d.
+Proof.
+  intros Hc contributing. unfold mvrs_to_data. rewrite Hc. fold (keep a use_all). fold contributing.
+  split.
+  - destruct (collect _) as [d'|e] eqn:Ecol; [discriminate|]. intros H. injection H as ->.
+    apply collect_raise in Ecol. apply in_map_iff in Ecol. destruct Ecol as [p [Hp Hin]].
+    unfold contributing in Hin. apply filter_In in Hin. destruct Hin as [_ Hk].
+    exact (keep_no_evalue a use_all p Hk Hp).
+  - intros d u. destruct (collect _) as [d'|e] eqn:Ecol; [|discriminate]. intros H. injection H as <- _.
+    apply collect_ok in Ecol. apply Forall2_map_l in Ecol. exact Ecol.
+Qed.
+
+(* set_p_values: each test runs with the u returned by mvrs_to_data already installed, on exactly those data;
+   nothing else in the assertion changes *)
+Lemma C06_installed_lemma (mvrs cvrs : list card) : forall (asns asns' : list asn) (calls : list call),
+  set_p_values asns mvrs cvrs = Ok (asns', calls) ->
+  length asns' = length asns /\ length calls = length asns /\
+  Forall2 (fun a (ac : asn * call) =>
+             exists d u, mvrs_to_data a mvrs cvrs false = Ok (d, u) /\
+                         call_u (snd ac) = u /\ call_d (snd ac) = d /\
+                         fst ac = set_test_u a u /\ a_test_u (fst ac) = u)
+          asns (combine asns' calls).
+Proof.
+  induction asns as [|a r IH]; simpl; intros asns' calls H.
+  - injection H as <- <-. repeat split; constructor.
+  - destruct (mvrs_to_data a mvrs cvrs false) as [[d u]|e] eqn:Ed; [|discriminate].
+    destruct (set_p_values r mvrs cvrs) as [[as' cs]|e] eqn:Er; [|discriminate].
+    injection H as <- <-. destruct (IH as' cs eq_refl) as [H1 [H2 H3]]. simpl.
+    repeat split; try congruence.
+    constructor; [|exact H3]. exists d, u. split; [exact Ed|]. simpl. repeat split; reflexivity.
+Qed.
+
+(* the pool means computed by set_tally_pool_means from an assorter with values in [0, ua] satisfy means_ok as soon
+   as no listed pool is empty *)
+Lemma pool_means_ok A cid cvrs arg use_style ua means :
+  range_ok A ua cvrs = true ->
+  set_tally_pool_means A cid cvrs arg use_style = Ok means ->
+  forall p m, In (p, m) means -> m = NaN \/ in_range ua m.
+Proof.
+  intros Hr Hm p m Hin. unfold set_tally_pool_means in Hm.
+  destruct (forallb _ _) in Hm; [|discriminate]. injection Hm as <-.
+  apply in_map_iff in Hin. destruct Hin as [p' [E _]]. injection E as -> <-.
+  unfold pool_mean. set (ms := pool_members cid use_style p cvrs).
+  destruct ms as [|c ms'] eqn:Ems; [now left|]. right.
+  rewrite np_mean_fin by discriminate. eexists. split; [reflexivity|].
+  assert (Hne : c :: ms' <> []) by discriminate. pose proof (qlen_pos _ Hne) as Hn.
+  assert (Hb : forall x, In x (c :: ms') -> 0 <= A x <= ua).
+  { intros x Hx. apply (range_ok_In A ua cvrs x Hr). rewrite <- Ems in Hx. unfold ms, pool_members in Hx.
+    apply filter_In in Hx. tauto. }
+  destruct (qsum_bounds A 0 ua (c :: ms') Hb) as [Hlo Hhi]. rewrite qlen_map. split.
+  - apply Qle_shift_div_l; [exact Hn|lra].
+  - apply Qle_shift_div_r; [exact Hn|lra].
+Qed.
+
+(* corollary of the identity: rejecting "mean B <= 1/2" is rejecting "mean Abar <= 1/2" *)
+Lemma C03_reject_iff_lemma (A : card -> Q) (cid : Z) (use_style : bool) (ua : Q) :
+  0 < ua ->
+  forall (pairs : list (card * card)) (arg : option (list Z)) (means : list (Z * Xq)),
+  let cvrs := map snd pairs in
+  let scope := filter (in_scope cid use_style) pairs in
+  scope <> [] ->
+  phantoms_half A (map snd scope) = true ->
+  range_ok A ua (map snd scope) = true ->
+  set_tally_pool_means A cid cvrs arg use_style = Ok means ->
+  exists v bs,
+    margin_of_mean (assorter_mean A cid cvrs use_style) = Fin v /\
+    map (fun p => overstatement_assorter A cid (Some means) (Fin v) ua (fst p) (snd p) use_style) scope
+      = map (fun b => Ok (Fin b)) bs /\
+    ((1 # 2) < mean bs <-> (1 # 2) < mean (map (fun p => abar A cid use_style (fst p)) scope)).
+Proof.
+  intros Hu pairs arg means cvrs scope Hne Hph Hr Hm.
+  destruct (C03_identity_lemma A cid use_style ua Hu pairs arg means Hne Hph Hr Hm) as [v [bs [H1 [_ [H3 [_ H5]]]]]].
+  exists v, bs. repeat split; try assumption; apply H5.
+Qed.
